@@ -224,6 +224,9 @@ func (w *World) onNewRoundObserved(n *Node, h uint64, first bool) {
 			cnt++
 		}
 	}
+	if w.checks("C14") {
+		w.checkSyncedRoundFlag(n, h, first)
+	}
 	if prev != nil && prev.height >= h {
 		w.violate("C13", "round-heights-increase", "n%d: new-round callback for h%d after h%d", n.idx, h, prev.height)
 	}
@@ -940,5 +943,3 @@ func (w *World) onBubbleLeak(msg string) {
 func (w *World) onGenuineProofRejected(n *Node, sb *StoredBlock, th uint64, err error) {
 	w.violate("C03", "genuine-proof-rejected-on-sync", "n%d rejects the committed pair of h%d obtained from a correct peer: %v", n.idx, th, err)
 }
-func (w *World) stabilise()       {}
-func (w *World) stableStep() bool { return false }
